@@ -43,4 +43,29 @@ PROPS = {
         "harness_test": "TestC09",
         "explanation": "Lock lifecycle theorems over the epoch loop (snapshot iteration)",
     },
+    "C15": {
+        "harness_test": "TestC15",
+        "technique": "machine-checked proof in Rocq (Coq): closed finite statements over tables regenerated from the working tree by a translator + Go monitor/differential deployment",
+        "level_text": "Byte equality of all 33 committed artifacts with their regeneration by the pinned compiler/generator, ABI/safemethods agreement, binding call table vs manifest (name, arity, unwrap, coverage), topological deployment order and version agreement, proved by vm_compute over tables the translator regenerates from /repo on every run",
+        "level_note": "Trusted: Coq kernel incl. primitive Uint63.int (listed by Print Assumptions; no axioms), neo-go 0.107.0 compiler/NEF+manifest readers/rpcbinding generator, the translator (go/packages constant reader, go/ast walks over rpcbinding.go, _deploy call graph, deploy.Deploy), the unwrap-admissibility and generator-coverage tables stated in Proofs/Artifacts.v",
+        "explanation": "Translator route: Gen/{Params,Abi,Artifacts}.v regenerated and re-proved each run; TestC15 recomputes the comparisons, checks the embedded files, and runs version() and all safe parameterless methods on committed vs fresh deployments",
+        "trusted": ["harness/cmd/translate + harness/c15lib (Go AST/const extraction, artifact regeneration through compiler.CompileAndSave and rpcbinding.Generate with config.Version=0.107.0)"],
+        "assumptions": ["NNS name <x>.neofs denotes the contract of directory contracts/<x>; dependency edges are those on the static call graph from _deploy (ResolveFSContract*, InferNNSHash with constant names)"],
+    },
+    "C17": {
+        "level_text": "Refinement of an abstract per-decision tally (distinct voters, 20-block freshness, threshold 2n/3+1) by the stored ballots proved in Coq for every history of the Vote/NeoFS model; fires-iff, only-Alphabet, once-per-tally, stale-votes and threshold/quorum-intersection theorems; quorum of distinct current members proved for a fixed Alphabet list and refuted (vm_compute) across alphabetUpdate; model tied to the code by differential runs of the compiled neofs contract in notary-disabled mode",
+        "level_note": "Trusted: Coq kernel; hand-written model validated differentially (n=1..7, exhaustive voter sequences, timing patterns 0/1/20/21 blocks); premise: ledger.CurrentIndex() non-decreasing; crypto primitives abstract; payee is a plain account; ballots survive alphabetUpdate (observation W1/W2, outside the quantifier's fixed list)",
+        "technique": TECH_INV,
+        "harness_test": "TestC17",
+        "explanation": "Simulation between the contract model and the spec machine (same methods over the abstract tally) by induction over histories; step theorems read off a normal form of the gated methods",
+        "assumptions": ["heights non-decreasing from one transaction to the next", "arguments of declared types, notifications below 1024 bytes, cheque payee has no contract deployed, fees paid by a separate account (harness conventions listed in Model/NeoFSVote.v)"],
+    },
+    "C03": {
+        "level_text": "Requirement table for all 90 non-safe manifest methods (11 contracts) with kernel-checked threshold arithmetic, monotonicity, no-vacuous-row and table-coverage statements; inertness proved for every state/context/operation of the Balance model; for the other ten contracts the table is tied to the code by the exhaustive witness sweep on the compiled contracts (committees of 1 and 3 keys, thorough 1,2,3,4,5,7), every outcome re-checked against eval_req inside Coq",
+        "level_note": "Trusted: Coq kernel; the hand-written table (each row cites the guard file:line; the harness's independent copy is compared row by row in Coq); inertness of contracts other than Balance is tested by the sweep, not proved; witness scopes other than Global/None and calls through other contracts are not swept; update's success path stops at CheckVersion (same version)",
+        "technique": "machine-checked proof in Rocq (Coq): table properties + Balance inertness for all inputs; exhaustive signer-set sweep of the compiled contracts checked in Coq",
+        "harness_test": "TestC03",
+        "explanation": "eval_req of the table vs. observed effect for every (method, argument variant, signer set); coverage of the manifests compiled now is a closed vm_compute statement in the cases file",
+        "assumptions": ["principals named by arguments / NNS owner and admin are supplied by the harness from the arguments it built and from ownerOf/properties read on chain"],
+    },
 }
